@@ -17,14 +17,22 @@ def rule_crc(ctx) -> None:
     chk, prog = ctx.chk, ctx.prog
     sg = ctx.own(MIX, "Mbi_ExportMixinCrcSign", "sign")
     calcs = [c for c in sorted(A.calls_in(sg.node, "calculate"), key=lambda c: c.lineno)]
-    if len(calcs) != 2:
-        raise AnalysisError("C02.crc-window: expected two CRC calculations in Mbi_ExportMixinCrcSign.sign")
-    a1, a2 = norm(calcs[0].args[0]), norm(calcs[1].args[0])
+    # CRC coverage as a window list: two calculations chained through initial_value, or one calculation over the concatenation
+    # (equivalent for CRC-32/MPEG-2: no reflection, no final xor - the algorithm itself is pinned by the next obligation)
     K = "self.IVT_CRC_CERTIFICATE_OFFSET"
-    ok = a1 == f"input_image[:{K}]" and a2 == f"input_image[{K} + 4:]"
-    seed = [n for n in A.walk_no_nested(sg.node) if isinstance(n, ast.Assign) and norm(n.targets[0]) == "crc_obj.initial_value"]
-    chained = bool(seed) and norm(seed[0].value) == "crc" and calcs[0].lineno < seed[0].lineno < calcs[1].lineno
-    chk.decide(ok and chained, "C02.crc-window", sg.qual, "CRC covers image[:K] then image[K+4:] (second part seeded with the first), i.e. everything except the 4-byte CRC word", f"{a1} / {a2}, chained={chained}", f"input_image[:{K}] and input_image[{K} + 4:]", A.loc(MIX, sg.node))
+    if len(calcs) == 2:
+        wins = [norm(calcs[0].args[0]), norm(calcs[1].args[0])]
+        seed = [n for n in A.walk_no_nested(sg.node) if isinstance(n, ast.Assign) and norm(n.targets[0]) == "crc_obj.initial_value"]
+        chained = bool(seed) and norm(seed[0].value) == "crc" and calcs[0].lineno < seed[0].lineno < calcs[1].lineno
+    elif len(calcs) == 1:
+        def flat(e):
+            return flat(e.left) + flat(e.right) if isinstance(e, ast.BinOp) and isinstance(e.op, ast.Add) else [e]
+        wins = [norm(x) for x in flat(A.inline_locals(sg.node, calcs[0].args[0], keep=["input_image"]))]
+        chained = True
+    else:
+        raise AnalysisError("C02.crc-window: expected one or two CRC calculations in Mbi_ExportMixinCrcSign.sign")
+    ok = wins == [f"input_image[:{K}]", f"input_image[{K} + 4:]"]
+    chk.decide(ok and chained, "C02.crc-window", sg.qual, "CRC covers image[:K] then image[K+4:] (second part seeded with the first), i.e. everything except the 4-byte CRC word", f"{wins}, chained={chained}", f"input_image[:{K}] and input_image[{K} + 4:]", A.loc(MIX, sg.node))
     alg = [c for c in A.calls_in(sg.node, "from_crc_algorithm")]
     chk.decide(bool(alg) and norm(alg[0].args[0]) == "CrcAlg.CRC32_MPEG", "C02.crc-window", sg.qual + " algorithm", "CRC-32/MPEG-2", norm(alg[0]) if alg else "", "", A.loc(MIX, sg.node))
     inp = A.single_def(sg.node, "input_image")
@@ -54,7 +62,10 @@ def rule_crc(ctx) -> None:
     app_before = t.find("ret.append_image(image_manifest)") < t.find("self.manifest.compute_crc(")
     mc = ctx.cls(CLS, "MasterBootImageManifestCrc")
     ex = mc.method("export")
-    crc_last = ex is not None and "data += struct.pack('<L', self.crc)" in norm(ex.node) and norm(A.body_of(ex.node)[-1]) == "return data"
+    from ..engines import bytelayout
+    nf = bytelayout.normal_form(lambda e: prog.fold(e, mc.module, mc), ex.node) if ex is not None else None
+    # the parent's bytes, then exactly one 4-byte little-endian word holding self.crc (however the bytes are put together)
+    crc_last = bool(nf) and len(nf) == 2 and "super().export()" in str(nf[0]) and nf[1][0] == 4 and "self.crc" in str(nf[1]) and "little" in str(nf[1])
     chk.decide(ok and app_before and crc_last, "C02.manifest", cd.qual, "manifest CRC covers the whole block except its trailing 4-byte CRC item, then the manifest is re-exported into the same sub-image", f"crc call {ok}, appended before {app_before}, crc is last item {crc_last}", "", A.loc(MIX, cd.node))
     cc = mc.method("compute_crc")
     chk.decide(cc is not None and "CrcAlg.CRC32_MPEG" in norm(cc.node) and "self.crc = crc_obj.calculate(image)" in norm(cc.node), "C02.manifest", f"{CLS}::MasterBootImageManifestCrc.compute_crc", "CRC-32/MPEG-2 of the given bytes", "", "", CLS)
@@ -107,23 +118,54 @@ def rule_hmac_enc(ctx) -> None:
     chk.decide(hv is not None and norm(hv) == "self.compute_hmac(raw_image[:self.HMAC_OFFSET])", "C02.hmac", fz.qual, "HMAC covers the first HMAC_OFFSET (64) bytes of the final image", norm(hv) if hv is not None else "", "", A.loc(MIX, fz.node))
     # encryption twin
     enc = ctx.own(MIX, "Mbi_ExportMixinAppTrustZoneCertBlockEncrypt", "encrypt")
-    e = [c for c in A.calls_in(enc.node, "aes_ctr_encrypt")]
-    d = [c for c in A.calls_in(enc.node, "aes_ctr_decrypt")]
-    ke = {k.arg: norm(k.value) for k in e[0].keywords} if e else {}
-    kd = {k.arg: norm(k.value) for k in d[0].keywords} if d else {}
-    ok = ke.get("key") == kd.get("key") == "key" and ke.get("nonce") == kd.get("nonce") == "self.ctr_init_vector" and ke.get("plain_data") == "image.export()" and kd.get("encrypted_data") == "image.export()"
-    chk.decide(ok, "C02.enc-twin", enc.qual, "encrypt and its revert use the same key and the same counter IV over the whole image", f"{ke} / {kd}", "", A.loc(MIX, enc.node))
-    kdefs = [norm(n.value) for n in A.walk_no_nested(enc.node) if isinstance(n, ast.Assign) and norm(n.targets[0]) == "key"]
-    chk.decide(kdefs == ["self.hmac_key", "KeyStore.derive_enc_image_key(key)"], "C02.enc-twin", enc.qual + " key", "key = user key, replaced by derive_enc_image_key(user key) when no key store / OTP source", f"{kdefs}", "", A.loc(MIX, enc.node))
+    # decision table of the function in its inputs (layout of the ifs, temporaries and conditional expressions do not matter)
+    from .c01 import enc_table
+    table, dirs_ok = enc_table(enc.node)
+    want_tab = {("derived", "KeyStore.derive_enc_image_key(self.hmac_key)", "self.ctr_init_vector", "image.export()"), ("stored", "self.hmac_key", "self.ctr_init_vector", "image.export()")}
+    ok = table["aes_ctr_encrypt"] == table["aes_ctr_decrypt"] and dirs_ok and all(x[2] == "self.ctr_init_vector" and x[3] == "image.export()" for x in table["aes_ctr_encrypt"]) and bool(table["aes_ctr_encrypt"])
+    chk.decide(ok, "C02.enc-twin", enc.qual, "encrypt and its revert use the same key and the same counter IV over the whole image", f"{sorted(table['aes_ctr_encrypt'])} / {sorted(table['aes_ctr_decrypt'])}; directions {dirs_ok}", "", A.loc(MIX, enc.node))
+    chk.decide(table["aes_ctr_encrypt"] == want_tab, "C02.enc-twin", enc.qual + " key", "key = user key, replaced by derive_enc_image_key(user key) when no key store / OTP source", f"{sorted(table['aes_ctr_encrypt'])}", f"{sorted(want_tab)}", A.loc(MIX, enc.node))
     pe = ctx.own(MIX, "Mbi_ExportMixinAppTrustZoneCertBlockEncrypt", "post_encrypt")
-    t = norm(pe.node)
-    fwd = ["binary=enc_ivt", "binary=image_bytes[self.HMAC_OFFSET:self.app_len]", "binary=self.cert_block.export()", "binary=image_bytes[:56]", "binary=self.ctr_init_vector", "binary=image_bytes[self.app_len:]"]
-    pos = [t.find(x) for x in fwd]
-    rev = "image_bytes[cert_blk_offset + cert_blk_size:cert_blk_offset + cert_blk_size + 56]" in t and "org_image += image_bytes[56:cert_blk_offset]" in t and "org_image += image_bytes[cert_blk_offset + cert_blk_size + 56 + 16:]" in t
-    chk.decide(all(p >= 0 for p in pos) and pos == sorted(pos) and rev, "C02.enc-twin", pe.qual, "forward layout: new IVT | rest of app | cert block | original encrypted IVT (56) | IV (16) | TrustZone; revert re-assembles exactly these windows", f"forward order {pos}, revert windows {rev}", "", A.loc(MIX, pe.node))
+    # forward: the parts appended on the non-revert paths, in order; revert: numeric windows of the re-assembled image for a sample
+    # (offset, size) of the certificate block - both read off the symbolic paths, so temporaries / named constants do not matter
+    sp = [q for q in A.spaths(pe.node) if q.end == "return"]
+    fwd_seqs = set()
+    for q in sp:
+        if not q.assumes("revert", False):
+            continue
+        parts = []
+        for c in q.calls("append_image"):
+            b = [k.value for cc in ast.walk(c) if isinstance(cc, ast.Call) and A.call_name(cc) == "BinaryImage" for k in cc.keywords if k.arg == "binary"]
+            parts.append(ctx.vnorm(pe, b[0]) if b else "?")
+        fwd_seqs.add(tuple(parts))
+    IB = "image.export()"
+    want_fwd = [f"self.ivt_table.update_ivt({IB}[:self.HMAC_OFFSET], self.img_len, self.app_len)", f"{IB}[self.HMAC_OFFSET:self.app_len]", "self.cert_block.export()", f"{IB}[:56]", "self.ctr_init_vector", f"{IB}[self.app_len:]"]
+    want_fwd = [ctx.vnorm(pe, w) for w in want_fwd]
+    fwd_ok = fwd_seqs == {tuple(want_fwd), tuple(want_fwd[:-1])} and any(q.assumes("self.trust_zone.export()", True) and len(q.calls("append_image")) == 6 for q in sp)
+    O, S = 1000, 300
+    env = {f"self.ivt_table.get_cert_block_offset_from_data({IB})": O, "self.cert_block.expected_size": S}
+    rev_wins = set()
+    for q in sp:
+        if not q.assumes("revert", True) or q.value is None:
+            continue
+        b = [k.value for cc in ast.walk(q.value) if isinstance(cc, ast.Call) and A.call_name(cc) == "BinaryImage" for k in cc.keywords if k.arg == "binary"]
+
+        def flat(e):
+            return flat(e.left) + flat(e.right) if isinstance(e, ast.BinOp) and isinstance(e.op, ast.Add) else [e]
+        wins = []
+        for x in (flat(b[0]) if b else []):
+            if isinstance(x, ast.Subscript) and isinstance(x.slice, ast.Slice) and norm(x.value) == IB:
+                lo = ctx.subst_fold(x.slice.lower, env, pe.module, pe.cls) if x.slice.lower is not None else 0
+                hi = ctx.subst_fold(x.slice.upper, env, pe.module, pe.cls) if x.slice.upper is not None else None
+                wins.append((lo, hi))
+            else:
+                wins.append(norm(x))
+        rev_wins.add(tuple(wins))
+    rev = rev_wins == {((O + S, O + S + 56), (56, O), (O + S + 56 + 16, None))}
+    chk.decide(fwd_ok and rev, "C02.enc-twin", pe.qual, "forward layout: new IVT | rest of app | cert block | original encrypted IVT (56) | IV (16) | TrustZone; revert re-assembles exactly these windows", f"forward {sorted(fwd_seqs)[:1]}, revert windows {sorted(map(str, rev_wins))}", "", A.loc(MIX, pe.node))
     il = ctx.own(MIX, "Mbi_ExportMixinAppTrustZoneCertBlockEncrypt", "img_len")
     r = A.returns_in(il.node)
-    chk.decide(bool(r) and norm(r[-1].value) == "self.total_len + self.cert_block.signature_size + 56 + 16", "C02.enc-twin", il.qual, "image length counts the encrypted IVT copy (56) and the IV (16)", norm(r[-1]) if r else "", "", A.loc(MIX, il.node))
+    chk.decide(bool(r) and ctx.vnorm(il, A.inline_locals(il.node, r[-1].value)) == "self.total_len + self.cert_block.signature_size + 56 + 16", "C02.enc-twin", il.qual, "image length counts the encrypted IVT copy (56) and the IV (16)", norm(r[-1]) if r else "", "", A.loc(MIX, il.node))
 
 
 def rule_certlen(ctx) -> None:
